@@ -35,41 +35,44 @@ Section P.
       inversion H; subst s'; clear H.
       repeat (apply andb_true_iff in C; destruct C as [C ?]).
       apply Nat.eqb_eq in C. apply Nat.ltb_lt in H1. apply Nat.eqb_eq in H0. apply negb_true_iff in H.
-      subst g. unfold xinv; cbn. rewrite H in I1. rewrite nonempty_gens_S.
+      subst g. unfold xinv; cbn [x_next x_waiting x_queue x_file x_exited]. rewrite H in I1. rewrite nonempty_gens_S.
       replace (0 <? xcount counts (x_next s)) with false by (symmetry; apply Nat.ltb_ge; lia).
-      rewrite !app_nil_r in *. repeat split; auto; try lia; try discriminate.
-      + intros E1 E2. replace (G - 1) with (x_next s) in E2 by lia. lia.
-      + intros E1 E2. replace (G - 1) with (x_next s) in E2 by lia. lia.
+      rewrite !app_nil_r in *.
+      split; [exact I1|]. split; [lia|]. split; [discriminate|]. split; [|discriminate].
+      intros E1 E2. replace (G - 1) with (x_next s) in E2 by lia. lia.
     - (* XSend *)
       destruct ((g =? x_next s) && (g <? G) && (0 <? xcount counts g) && negb (x_waiting s)) eqn:C; [|discriminate].
       repeat (apply andb_true_iff in C; destruct C as [C ?]).
       apply Nat.eqb_eq in C. apply Nat.ltb_lt in H1. apply Nat.ltb_lt in H2. apply negb_true_iff in H0.
       subst g. rewrite H0 in I1. rewrite app_nil_r in I1.
-      destruct (S (x_next s) =? G) eqn:EL; inversion H; subst s'; clear H; unfold xinv; cbn.
-      + apply Nat.eqb_eq in EL. rewrite app_assoc, I1. repeat split; auto; try lia; try discriminate.
+      destruct (S (x_next s) =? G) eqn:EL; inversion H; subst s'; clear H; unfold xinv;
+        cbn [x_next x_waiting x_queue x_file x_exited].
+      + apply Nat.eqb_eq in EL. rewrite app_assoc, I1.
+        split; [reflexivity|]. split; [lia|]. split; [intros _; split; [exact EL|exact H1]|].
+        split; [intros E1; lia|discriminate].
       + apply Nat.eqb_neq in EL. rewrite app_assoc, I1, nonempty_gens_S.
         replace (0 <? xcount counts (x_next s)) with true by (symmetry; apply Nat.ltb_lt; lia).
-        rewrite app_nil_r. repeat split; auto; try lia; try discriminate.
+        rewrite app_nil_r.
+        split; [reflexivity|]. split; [lia|]. split; [discriminate|]. split; [intros E1; lia|discriminate].
     - (* XWaitDone *)
       destruct (x_waiting s) eqn:W; [|discriminate]. destruct (x_queue s) eqn:Q; [|discriminate].
       inversion H; subst s'; clear H. destruct (I3 eq_refl) as [E1 E2].
-      unfold xinv; cbn. rewrite app_nil_r in *. rewrite I1, nonempty_gens_S.
+      unfold xinv; cbn [x_next x_waiting x_queue x_file x_exited]. rewrite app_nil_r in *. rewrite I1, nonempty_gens_S.
       replace (0 <? xcount counts (x_next s)) with true by (symmetry; apply Nat.ltb_lt; lia).
-      repeat split; auto; try lia; try discriminate.
+      split; [rewrite ?app_nil_r; reflexivity|]. split; [lia|]. split; [discriminate|]. split; [intros _ _; split; reflexivity|discriminate].
     - (* XChild *)
       destruct (x_queue s) as [|g' q] eqn:Q; [discriminate|].
       destruct (g =? g') eqn:E; [|discriminate]. apply Nat.eqb_eq in E. subst g'.
-      inversion H; subst s'; clear H. unfold xinv; cbn.
-      rewrite <- app_assoc. cbn. repeat split; auto.
-      + intros E1 E2. destruct (I4 E1 E2) as [A _]. discriminate.
-      + intros E1 E2. destruct (I4 E1 E2) as [_ A]. exact A.
-      + intros E'. discriminate.
+      inversion H; subst s'; clear H. unfold xinv; cbn [x_next x_waiting x_queue x_file x_exited].
+      rewrite <- app_assoc. cbn [app].
+      split; [exact I1|]. split; [exact I2|]. split; [exact I3|]. split; [|discriminate].
+      intros E1 E2. destruct (I4 E1 E2) as [A _]. discriminate.
     - (* XExit *)
       destruct ((x_next s =? G) && negb (x_waiting s)) eqn:C; [|discriminate].
       apply andb_true_iff in C. destruct C as [C1 C2]. apply Nat.eqb_eq in C1. apply negb_true_iff in C2.
-      inversion H; subst s'; clear H. unfold xinv; cbn. rewrite C2 in I1.
-      repeat split; auto; try discriminate.
-      + intros E1 E2. apply (I4 E1 E2).
+      inversion H; subst s'; clear H. unfold xinv; cbn [x_next x_waiting x_queue x_file x_exited]. rewrite C2 in I1.
+      split; [exact I1|]. split; [exact I2|]. split; [discriminate|]. split; [|intros _; exact C1].
+      intros E1 E2. destruct (I4 E1 E2) as [A _]. split; [exact A|reflexivity].
   Qed.
 
   Lemma xreachable_inv s : xreachable counts s -> xinv s.
